@@ -5,11 +5,11 @@ from vlib import REPO
 
 def hx(s): return s.encode().hex() or "-"
 
-def shapes(maxc):
+def shapes(maxc, alphabet=("a", "b", ".", "..", "")):
     """path shapes over components {a, b, ., .., empty}, relative and absolute ('@' = the working directory)."""
     out = []
     for n in range(1, maxc + 1):
-        for cs in itertools.product(["a", "b", ".", "..", ""], repeat=n):
+        for cs in itertools.product(list(alphabet), repeat=n):
             depth, ok = 0, True
             for c in cs:
                 if c == "..": depth -= 1
@@ -26,13 +26,16 @@ def shapes(maxc):
 
 TREES = [[], ["d:a"], ["d:a", "d:a/b"], ["f:a"], ["d:a", "f:a/b"], ["d:b", "f:a"], ["d:a", "d:a/a", "f:a/a/b"]]
 
+LINK_TREES = [["d:a", "l:k>a"], ["d:a", "l:k>@/a"], ["d:a", "d:a/b", "l:k>a/b"], ["f:f", "l:k>f"], ["l:k>nowhere"], ["d:a", "l:a/k>.."],
+              ["l:k>k"], ["d:a", "l:j>a", "l:k>j"], ["d:b", "l:b/k>../a"], ["l:a>b"]]
+
 def run(ck):
     ck.level = "proof"
     ck.cov["rule"] = ("create_directories: every path shape over components {a, b, ., .., empty} up to 4 (quick) / 5 (thorough), relative and absolute, with trailing separators, "
-                      "on 7 pre-existing trees (nothing, partial, file in the way at each depth); compared: status, 'is a directory afterwards', second-call status (API) and the "
+                      "on 7 pre-existing trees (nothing, partial, file in the way at each depth) and 10 trees with symbolic links (to a directory by relative and absolute target, nested, to a file, dangling, to the parent, self-loop, chain); compared: status, 'is a directory afterwards', second-call status (API) and the "
                       "resulting tree (white-box). file_equals: size pairs around 0 / 512 / page±1 / 3 pages with the differing byte at first, last and page boundaries, hard link, "
                       "page allocation refused; file/symlink type for 9 file kinds; file_size; canonical_path vs realpath; dir_for_each; descriptor balance on every call")
-    ck.assumptions += ["symlink-free tree model for create_directories (symlinks, permissions and races are exercised against the real file system only)",
+    ck.assumptions += ["permissions, mount points and concurrent modification of the tree are not modelled",
                        "read() returns full pages for regular files"]
     try:
         ck.write_generated("Errno.lean", gen_errno.generate(REPO, ck.work))
@@ -55,6 +58,12 @@ def run(ck):
         for s in shapes(4 if q else 5):
             lines.append("mkdirs %s | %s" % (" ".join(tree), hx(s)))
             ck.count_distinct(("mk", tuple(tree), s), ".." in s or "//" in s or bool(tree))
+    # trees with symbolic links: to a directory (relative and absolute target), to a nested directory, to a file, dangling,
+    # a link to the parent, a self-loop, a chain of links
+    for tree in LINK_TREES:
+        for sh in shapes(3 if q else 4, ("k", "a", "b", "..", "")):
+            lines.append("mkdirs %s | %s" % (" ".join(tree), hx(sh)))
+            ck.count_distinct(("mkl", tuple(tree), sh), True)
     lines.append("mkdirs | -")
     sizes = [0, 1, 2, 511, 512, 513, page - 1, page, page + 1, 2 * page, 3 * page - 1, 3 * page, 3 * page + 1]
     for la in sizes:
